@@ -30,15 +30,18 @@ pub struct Tuple {
     /// how the bytes are delivered: a transient-only shim plan (per-call limits and short transfers on every read and write of
     /// every stage — what a pipe, a tty or a slow disk does). No result may depend on it.
     pub io_plan: String,
+    /// the input is named as a PATH that is not a regular file: `/dev/stdin` backed by a pipe the harness feeds (what
+    /// `gen | fml run /dev/stdin`, a FIFO or bash's <(...) look like to the tool: st_size 0, not seekable)
+    pub dev_stdin_pipe: bool,
 }
 
 impl Tuple {
     pub fn baseline() -> Tuple {
-        Tuple { profile: Profile::Debug, hash_seed: 1, clock: None, junk: 0, env: vec![], aslr: false, via_stdin: false, argv0: None, nested_cwd: false, stale_outputs: false, io_plan: String::new() }
+        Tuple { profile: Profile::Debug, hash_seed: 1, clock: None, junk: 0, env: vec![], aslr: false, via_stdin: false, argv0: None, nested_cwd: false, stale_outputs: false, io_plan: String::new(), dev_stdin_pipe: false }
     }
     pub fn to_json(&self) -> Value {
         json!({"profile": self.profile.name(), "hash_seed": self.hash_seed, "clock": self.clock, "junk": self.junk, "env": self.env,
-               "aslr": self.aslr, "via_stdin": self.via_stdin, "argv0": self.argv0, "nested_cwd": self.nested_cwd, "stale_outputs": self.stale_outputs, "io_plan": self.io_plan})
+               "aslr": self.aslr, "via_stdin": self.via_stdin, "argv0": self.argv0, "nested_cwd": self.nested_cwd, "stale_outputs": self.stale_outputs, "io_plan": self.io_plan, "dev_stdin_pipe": self.dev_stdin_pipe})
     }
     pub fn from_json(v: &Value) -> Option<Tuple> {
         let mut env = Vec::new();
@@ -57,6 +60,7 @@ impl Tuple {
             nested_cwd: v.get("nested_cwd")?.as_bool()?,
             stale_outputs: v.get("stale_outputs").and_then(|x| x.as_bool()).unwrap_or(false),
             io_plan: v.get("io_plan").and_then(|x| x.as_str()).unwrap_or("").to_string(),
+            dev_stdin_pipe: v.get("dev_stdin_pipe").and_then(|x| x.as_bool()).unwrap_or(false),
         })
     }
     pub fn random(rng: &mut Rng) -> Tuple {
@@ -102,8 +106,11 @@ impl Tuple {
                 0 => format!("i:*:l:{k};r:*:l:{k}", k = rng.pick(&[1u32, 7, 64, 1000, 4096])),
                 1 => format!("o:*:l:{k};f:*:l:{k}", k = rng.pick(&[1u32, 7, 64, 1000])),
                 2 => format!("i:{a}:s:{n};r:{a}:s:{n};o:{b}:s:1;f:{b}:b:0", a = rng.below(3), n = 1 + rng.below(50), b = rng.below(4)),
+                // a passing I/O error (EAGAIN, EIO once) on one call of every class: a stage may fail then — compared narrowly
+                3 => format!("o:{a}:y:11;f:{b}:y:5;r:{c}:y:5;i:{c}:y:5", a = rng.below(6), b = rng.below(6), c = rng.below(3)),
                 _ => String::new(),
             },
+            dev_stdin_pipe: rng.below(8) == 0,
         }
     }
 }
@@ -152,10 +159,13 @@ fn strip_timestamps(log: &[u8]) -> String {
 
 fn child_for(t: &Tuple, args: &[&str]) -> Child {
     let mut c = Child::new(t.profile, args);
+    // an *error* on the guest program's own stdout is no property's subject (DESIGN §11.2): run/execute get the plan without it
+    let guest = matches!(args.first(), Some(&"run") | Some(&"execute"));
+    let plan: String = if guest { t.io_plan.split(';').filter(|e| !(e.starts_with("o:") && e.contains(":y:"))).collect::<Vec<_>>().join(";") } else { t.io_plan.clone() };
     c.env = t.env.clone();
     c.aslr = t.aslr;
     c.argv0 = t.argv0.clone();
-    c.shim = Some(ShimCfg { seed: t.hash_seed, plan: t.io_plan.clone(), clock: t.clock.clone(), junk: t.junk, budget: None }); // no call budget: liveness is C06's and C08's claim, and the CPU watchdog bounds the child
+    c.shim = Some(ShimCfg { seed: t.hash_seed, plan, clock: t.clock.clone(), junk: t.junk, budget: None }); // no call budget: liveness is C06's and C08's claim, and the CPU watchdog bounds the child
     c
 }
 
@@ -199,9 +209,11 @@ pub fn observe(source: &str, t: &Tuple) -> Obs {
         }
         if hi >= lo { span += (hi as i128 - lo as i128) as u128; }
     };
+    let dsp = t.dev_stdin_pipe && !t.via_stdin;
     // parse
     let parse = {
-        let mut c = if t.via_stdin { child_for(t, &["parse", "--format", "json"]) } else { child_for(t, &["parse", "x.fml", "--format", "json", "-o", "x.json"]) };
+        let mut c = if t.via_stdin { child_for(t, &["parse", "--format", "json"]) } else if dsp { child_for(t, &["parse", "/dev/stdin", "--format", "json", "-o", "x.json"]) } else { child_for(t, &["parse", "x.fml", "--format", "json", "-o", "x.json"]) };
+        if dsp { c.stdin = In::Pipe(source.as_bytes().to_vec()); }
         if t.via_stdin {
             c.stdin = In::File("x.fml".into());
             c.stdout = Out::File("x.json".into());
@@ -214,7 +226,8 @@ pub fn observe(source: &str, t: &Tuple) -> Obs {
     };
     // compile
     let compile = if parse.exit.is_success() {
-        let mut c = if t.via_stdin { child_for(t, &["compile", "--input-format", "json"]) } else { child_for(t, &["compile", "x.json", "-o", "x.bc"]) };
+        let mut c = if t.via_stdin { child_for(t, &["compile", "--input-format", "json"]) } else if dsp { child_for(t, &["compile", "/dev/stdin", "--input-format", "json", "-o", "x.bc"]) } else { child_for(t, &["compile", "x.json", "-o", "x.bc"]) };
+        if dsp { c.stdin = In::Pipe(std::fs::read(dir.join("x.json")).unwrap_or_default()); }
         if t.via_stdin {
             c.stdin = In::File("x.json".into());
             c.stdout = Out::File("x.bc".into());
@@ -229,7 +242,8 @@ pub fn observe(source: &str, t: &Tuple) -> Obs {
     };
     // run
     let run = {
-        let mut c = if t.via_stdin { child_for(t, &["run", "--heap-log", "run.csv"]) } else { child_for(t, &["run", "x.fml", "--heap-log", "logs/run.csv"]) };
+        let mut c = if t.via_stdin { child_for(t, &["run", "--heap-log", "run.csv"]) } else if dsp { child_for(t, &["run", "/dev/stdin", "--heap-log", "logs/run.csv"]) } else { child_for(t, &["run", "x.fml", "--heap-log", "logs/run.csv"]) };
+        if dsp { c.stdin = In::Pipe(source.as_bytes().to_vec()); }
         if t.via_stdin { c.stdin = In::File("x.fml".into()); }
         let r = run_child(&dir, &c);
         children += 1;
@@ -239,7 +253,8 @@ pub fn observe(source: &str, t: &Tuple) -> Obs {
     };
     // execute
     let exec = if compile.as_ref().map(|c| c.exit.is_success()).unwrap_or(false) {
-        let mut c = if t.via_stdin { child_for(t, &["execute", "--heap-log", "ex.csv"]) } else { child_for(t, &["execute", "x.bc", "--heap-log", "ex.csv"]) };
+        let mut c = if t.via_stdin { child_for(t, &["execute", "--heap-log", "ex.csv"]) } else if dsp { child_for(t, &["execute", "/dev/stdin", "--heap-log", "ex.csv"]) } else { child_for(t, &["execute", "x.bc", "--heap-log", "ex.csv"]) };
+        if dsp { c.stdin = In::Pipe(std::fs::read(dir.join("x.bc")).unwrap_or_default()); }
         if t.via_stdin { c.stdin = In::File("x.bc".into()); }
         let r = run_child(&dir, &c);
         children += 1;
@@ -284,6 +299,24 @@ pub fn difference(a: &Obs, b: &Obs) -> Option<(String, String)> {
         }
         (None, None) => {}
         _ => return Some(("D4:execute_presence_differs".into(), String::new())),
+    }
+    None
+}
+
+/// Under a tuple whose io_plan holds a passing I/O *error*, a stage may fail where the baseline succeeds; what may not happen is
+/// a stage that reports success with other bytes, or a run that exits 0 having printed something else.
+pub fn difference_narrow(a: &Obs, b: &Obs) -> Option<(String, String)> {
+    if a.parse.exit.is_success() && b.parse.exit.is_success() && a.parse.out != b.parse.out {
+        return Some(("D1:parse_output_differs".into(), format!("both exit 0 (one under a passing I/O error): {} vs {} bytes", a.parse.out.len(), b.parse.out.len())));
+    }
+    if let (Some(x), Some(y)) = (&a.compile, &b.compile) {
+        if x.exit.is_success() && y.exit.is_success() && b.parse.exit.is_success() && x.out != y.out {
+            let at = super::util::first_difference(&x.out, &y.out).unwrap_or(0);
+            return Some(("D2:bytecode_differs".into(), format!("both exit 0 (one under a passing I/O error): {} vs {} bytes, first difference at offset {}", x.out.len(), y.out.len(), at)));
+        }
+    }
+    if a.run.exit.is_success() && b.run.exit.is_success() && a.run.stdout != b.run.stdout {
+        return Some(("D3:run_output_differs".into(), format!("both exit 0 (one under a passing I/O error): {} vs {} bytes of stdout", a.run.stdout.len(), b.run.stdout.len())));
     }
     None
 }
@@ -363,7 +396,8 @@ pub fn replay_case(c: &Case) -> Result<Option<(String, String)>, String> {
     if timed_out(&a) || timed_out(&b) {
         return Ok(None);
     }
-    Ok(difference(&a, &b).map(|(o, d)| (o, format!("{} [tuples differ in: {}]", d, varying_fields(&c.a, &c.b)))))
+    let diff = if c.b.io_plan.contains(":y:") || c.a.io_plan.contains(":y:") { difference_narrow(&a, &b) } else { difference(&a, &b) };
+    Ok(diff.map(|(o, d)| (o, format!("{} [tuples differ in: {}]", d, varying_fields(&c.a, &c.b)))))
 }
 
 fn varying_fields(a: &Tuple, b: &Tuple) -> String {
@@ -379,6 +413,7 @@ fn varying_fields(a: &Tuple, b: &Tuple) -> String {
     if a.nested_cwd != b.nested_cwd { v.push("cwd"); }
     if a.stale_outputs != b.stale_outputs { v.push("stale_outputs"); }
     if a.io_plan != b.io_plan { v.push("io_plan"); }
+    if a.dev_stdin_pipe != b.dev_stdin_pipe { v.push("dev_stdin_pipe"); }
     v.join("+")
 }
 
@@ -407,6 +442,7 @@ pub fn minimise(c: &Case, oracle: &str) -> Case {
     try_field!(env);
     try_field!(stale_outputs);
     try_field!(io_plan);
+    try_field!(dev_stdin_pipe);
     try_field!(argv0);
     try_field!(nested_cwd);
     try_field!(via_stdin);
@@ -483,6 +519,10 @@ fn exercise(name: &str, spec: &ProgSpec, rng: &mut Rng, n_tuples: usize, history
     let mut t = base_t.clone(); t.profile = Profile::Release; tuples.push(t);
     let mut t = base_t.clone(); t.hash_seed = rng.next_u64(); tuples.push(t);
     let mut t = base_t.clone(); t.clock = Some("1700000000000000000:1000;1:-9000000000".into()); t.via_stdin = true; tuples.push(t);
+    if name.starts_with("scale:") {
+        // images and outputs beyond every buffer: a passing error on the second write of each class lands in the middle of the data
+        let mut t = base_t.clone(); t.io_plan = "f:1:y:5;o:1:y:11".into(); tuples.push(t);
+    }
     if name.starts_with("stress:") {
         // the one environment variable the Rust runtime itself reads for thread stacks, small and large
         let mut t = base_t.clone(); t.env = vec![("RUST_MIN_STACK".into(), "262144".into())]; tuples.push(t);
@@ -508,7 +548,8 @@ fn exercise(name: &str, spec: &ProgSpec, rng: &mut Rng, n_tuples: usize, history
             out.counters.push(("observations_skipped_cpu_watchdog", 1));
             continue;
         }
-        if let Some((oracle, detail)) = difference(&base, &o) {
+        let diff = if t.io_plan.contains(":y:") { difference_narrow(&base, &o) } else { difference(&base, &o) };
+        if let Some((oracle, detail)) = diff {
             out.violations.push((Case { spec: spec.clone(), a: base_t.clone(), b: t.clone(), history: vec![] }, oracle, detail));
         }
         if out.sample.is_none() && rng.below(30) == 0 {
@@ -617,7 +658,7 @@ pub fn run(seed: u64, tier: &str, ev: &mut Evidence) -> Vec<Violation> {
         }
         super::util::breadcrumb("C11", json!({"kind": "program", "program": specs[i].1.to_json()}));
         // scale templates cost seconds per observation in the debug build: fewer tuples, same coverage of the two forced ones
-        let nt = if specs[i].0.starts_with("scale:") { 4 } else if specs[i].0.starts_with("stress:") { 6 } else { n_tuples };
+        let nt = if specs[i].0.starts_with("scale:") { 5 } else if specs[i].0.starts_with("stress:") { 6 } else { n_tuples };
         exercise(&specs[i].0, &specs[i].1, &mut rng, nt, &history)
     });
     let mut raw = Vec::new();
